@@ -91,6 +91,18 @@ Theorem C11_fresh : forall Hf c ops,
 Proof. exact fresh_always. Qed.
 Print Assumptions C11_fresh.
 
+(* What else is re-initialised at NEWKEYS: the compression context.  For every operation list, every
+   packet that went through the compressor did so in a context that had been fed exactly the
+   compressed payloads of ITS OWN key epoch that precede it on the wire - nothing of an earlier epoch
+   (RFC 4253 6.2 / OpenSSH: a new deflate stream per key exchange) - and the live context holds exactly
+   the current epoch's compressed payloads.  (The sequence number reset under strict kex is part of
+   [emit]; the keys are C11_fresh.) *)
+Theorem C11_compress : forall Hf c ops,
+  let s := run Hf c ops init in
+  cmp_ok [] (wire (sn s)) /\ cmp_seen (sn s) = cmp_fed (send_epoch s) (wire (sn s)).
+Proof. exact compress_always. Qed.
+Print Assumptions C11_compress.
+
 (* Own KEXINIT and own NEWKEYS strictly alternate on the wire starting with KEXINIT, for every
    interleaving: however the two KEXINITs cross, an endpoint runs exactly one exchange at a time and
    never answers a crossing KEXINIT with a second KEXINIT. *)
@@ -140,7 +152,7 @@ Print Assumptions C11_newkeys_once.
 (* ---- non-vacuity: a busy session with a byte-triggered re-key, a crossing KEXINIT and a flush ---- *)
 Definition ex_hash (b : bytes) : bytes := [Z.of_nat (length b) mod 256; 7; 7; 7].
 Definition ex_cfg : cfg := mkC true 100 0 200 30 false.
-Definition ex_algs : algs := mkA 5 16 1 16 4 4 4 4 4 4.
+Definition ex_algs : algs := mkA 5 16 1 16 4 4 4 4 4 4 1 2.      (* client compresses with zlib *)
 Definition ex_D (n : Z) : op := (Send (mkP 94 20 n), []).
 Definition ex_ops : list op :=
   [(RecvVersion, []); (RecvKexInit true true, []); (Send (mkP 30 40 0), []); (KexDone [9] [7; 7] ex_algs, []);
@@ -172,3 +184,12 @@ Example C11_example_race_fixed :
   map p_ty (skipn 4 (wire_pkts s)) = [MSG_IGNORE; 94; MSG_KEXINIT] /\ map p_tag (deferred (sn s)) = [1] /\
   quiet_scan (wire_types s) = Some true.
 Proof. vm_compute. repeat split; reflexivity. Qed.
+
+(* compression in the example trace: the second NEWKEYS is the last payload of the epoch-1 context (EXT_INFO was its first); the three data
+   packets flushed after the second NEWKEYS start from an empty context again *)
+Example C11_example_compress :
+  let s := run ex_hash ex_cfg ex_ops init in
+  map (fun w => (p_ty (w_pkt w), w_epoch w, option_map (map p_ty) (w_cmp w))) (firstn 7 (skipn 10 (wire (sn s))))
+  = [(21, 1, Some [7; 5; 2; 50; 2; 94; 20]); (2, 2, Some []); (94, 2, Some [2]); (2, 2, Some [2; 94]);
+     (94, 2, Some [2; 94; 2]); (2, 2, Some [2; 94; 2; 94]); (94, 2, Some [2; 94; 2; 94; 2])].
+Proof. vm_compute. reflexivity. Qed.
